@@ -16,7 +16,7 @@ class C17(Prop):
     level_note = 'Trusted: Lean kernel + standard axioms; provider generators are application code; transport.close() may raise (scripted); virtual clock.'
     design_ref = '§5 C17'
     rule = ('cause of the previous connection\'s end (server EOF, transport error, keepalive timeout, healthy) x pending request-responses/streams/channels with a live local publisher at that moment x 1..4 consecutive '
-            'reconnects x provider/connect suspensions x reconnect() called by the harness or from inside on_close (which then returns, or stays suspended while the reconnect is carried out) x close() of the old transport raising ConnectionResetError or not x a link that had stopped draining writes (requests still queued) or not; after each reconnect a request is issued and answered by the harness on the new transport and the clock is advanced by two '
+            'reconnects x provider/connect suspensions x reconnect() called by the harness or from inside on_close (which then returns, or stays suspended while the reconnect is carried out) x an on_close handler that takes 40 ms while a healthy or timed-out connection is being replaced, with a request issued meanwhile (it must be failed or served, not left hanging) x close() of the old transport raising ConnectionResetError or not x a link that had stopped draining writes (requests still queued) or not; after each reconnect a request is issued and answered by the harness on the new transport and the clock is advanced by two '
             'keep-alive periods; non-trivial = something was pending or the cause was a timeout; distinct = distinct case')
     assumptions = ['the transport provider yields a fresh transport for every reconnect']
 
@@ -27,7 +27,9 @@ class C17(Prop):
             k = rng.randint(1, 4)
             out.append({'rounds': [{'cause': rng.choice(['eof', 'error', 'timeout', 'healthy']), 'pending_rr': rng.randint(0, 2), 'pending_stream': rng.randint(0, 1),
                                     'early_request': rng.random() < 0.4, 'close_raises': rng.random() < 0.35, 'stalled': rng.random() < 0.25,
-                                    'pending_channel': rng.random() < 0.35, 'via_on_close': rng.choice([None, None, 'plain', 'suspend'])} for _ in range(k)],
+                                    'pending_channel': rng.random() < 0.35, 'via_on_close': rng.choice([None, None, 'plain', 'suspend']),
+                                    # the application's on_close takes its time (examples/client_reconnect.py sleeps there) and a request is issued meanwhile
+                                    'slow_on_close': rng.random() < 0.3, 'mid_request': rng.random() < 0.6} for _ in range(k)],
                         'p': rng.randint(0, 2), 'c': rng.randint(0, 2)})
         return out
 
@@ -125,10 +127,24 @@ class C17(Prop):
                 await loop.advance(2 * LIFE + 50)
             timeouts = len(R.timeouts)
             nconnects = R.log.count('C')
+            mid = None
             if via:
                 R.reconnect_in_on_close = False
             else:
+                slow = r.get('slow_on_close') and r['cause'] in ('healthy', 'timeout')
+                if slow:
+                    R.slow_on_close_ms = 40
                 await c.reconnect()
+                if slow:
+                    # the reconnect is under way: the old receiver has been ended, on_close is taking its time; the application asks now
+                    await loop.advance(10)
+                    if r.get('mid_request') and R.log.count('C') == nconnects:
+                        try:
+                            mid = c.request_response(Payload(b'mid'))
+                        except Exception as e:
+                            mid = 'raised:' + type(e).__name__
+                    await loop.advance(60)
+                    R.slow_on_close_ms = 0
             for _ in range(200):
                 await asyncio.sleep(0)
                 if R.log.count('C') > nconnects:
@@ -167,6 +183,7 @@ class C17(Prop):
                 'keepalives_in_2_periods': ka1 - ka0, 'timeouts': timeouts, 'setups': sum(1 for e in nt.sent if e[1].startswith('SETUP')),
                 'stale': [e[1][:60] for e in nt.sent if isinstance(e[2], (F.RequestResponseFrame, F.PayloadFrame)) and bytes(e[2].data or b'').startswith(b'p') and bytes(e[2].data) not in (b'ping', b'pong')],
                 'pubs_cancelled': [p.cancelled for p in pubs if p.subscriber is not None],
+                'mid': None if mid is None else (mid if isinstance(mid, str) else ('pending' if not mid.done() else ('cancelled' if mid.cancelled() else ('failed' if mid.exception() is not None else 'served')))),
             })
         evs, sends, anomalies = R.model_events()
         try:
@@ -205,6 +222,8 @@ class C17(Prop):
             exp_sid = 3 if r['early'] == 'future' else 1
             if r['served_sid'] != exp_sid or (r['early'] == 'future' and r['early_sid'] != 1):
                 fails.append({'signature': 'stream-ids-not-restarted:' + c['cause'], 'what': '%s: first request id %s / %s, expected to restart from 1' % (ctx, r['early_sid'], r['served_sid'])})
+            if r.get('mid') == 'pending':
+                fails.append({'signature': 'request-issued-during-reconnect-left-hanging', 'what': '%s: a request issued while the old connection was being torn down (on_close still running) was neither failed nor served' % ctx})
             if r.get('stale'):
                 fails.append({'signature': 'stale-frames-on-new-connection', 'what': '%s: requests queued on the previous connection were sent on the new one: %s' % (ctx, r['stale'])})
             if not r['served']:
